@@ -502,10 +502,15 @@ func c09RaceMain(t *testing.T) {
 				continue
 			}
 			seen[key] = true
-			if it.Level == 1 && !(it.Prog.conflicts() && i%7 == 0) {
+			if it.Level == 1 && !(it.Prog.conflicts() && i%11 == 0) {
 				continue
 			}
-			if time.Now().After(deadline) {
+			if it.Level == 2 && len(it.Block.Txs) == 3 && i%3 != 0 {
+				continue
+			}
+			// the first 150 items are run whatever the clock says (a loaded machine
+			// must not turn the pass into a no-op)
+			if items >= 150 && time.Now().After(deadline) {
 				fmt.Printf("RACE-PASS-CAPPED after %d items\n", items)
 				goto done
 			}
@@ -652,7 +657,7 @@ func TestVerifC09(t *testing.T) {
 	l1done:
 	}
 
-	racePassDeadline := time.Now().Add(time.Duration(r.Pick(50, 240)) * time.Second)
+	racePassDeadline := started.Add(budget * 6 / 10)
 	waitRace := func() (string, int, string, error) { return "RACE-PASS disabled", 0, "", nil }
 	if os.Getenv("VERIF_C09_NORACE") == "" {
 		waitRace = c09StartRacePass(racePassDeadline)
@@ -772,6 +777,12 @@ func TestVerifC09(t *testing.T) {
 	}
 	if summary == "" && err == nil {
 		harness = append(harness, "race pass produced no summary")
+	}
+	if strings.Contains(summary, "runs=0 ") {
+		harness = append(harness, "race pass ran nothing")
+	}
+	if strings.Contains(summary, "CAPPED") {
+		r.Cap("free-running -race pass capped by the wall clock: " + strings.TrimSpace(summary))
 	}
 
 	for _, h := range harness {
